@@ -9,6 +9,7 @@ import (
 	"os"
 	"strconv"
 	"strings"
+	"sync"
 
 	"github.com/gauss-project/aurorafs/pkg/crypto"
 	"github.com/gauss-project/aurorafs/pkg/keystore"
@@ -50,6 +51,9 @@ func (prop) Gen(r *core.Rand, tier string) []core.Case {
 			"key " + kd + " " + b + " " + p, "export " + kd + " " + a + " " + p + " 0", "export " + kd + " " + a + " " + q + " 1", "import " + kd + " " + b + " " + p + " 0",
 			"key " + kd + " " + b + " " + p, "key " + kd + " " + a + " " + p, "import " + kd + " " + b + " " + q + " 0", "key " + kd + " " + b + " " + p}})
 	}
+	// concurrent get-or-create on the in-memory keystore (fresh names, then an existing one, then a wrong password)
+	cs = append(cs, core.Case{ID: "fix-par-key", NT: true, Ops: []string{"parkey m " + hx("p1") + " " + hx("pw") + " 8", "key m " + hx("p1") + " " + hx("pw"),
+		"parkey m " + hx("p1") + " " + hx("pw") + " 8", "parkey m " + hx("p2") + " " + hx("") + " 16", "parkey m " + hx("p1") + " " + hx("other") + " 4", "parkey m " + hx("p3") + " " + hx("x") + " 8"}})
 	cs = append(cs, core.Case{ID: "fix-empty-and-unicode", NT: true, Ops: []string{
 		"key f - -", "key f - -", "key f - " + hx("x"), "key m - -", "key m - -", "key m - " + hx("x"),
 		"key f " + hx("ключ") + " " + hx("пароль"), "key f " + hx("ключ") + " " + hx("пароль"), "key f " + hx("ключ") + " " + hx("пароль "),
@@ -81,6 +85,9 @@ func (prop) Gen(r *core.Rand, tier string) []core.Case {
 				reread = true
 			case 4:
 				c.Ops = append(c.Ops, "exists "+kd+" "+nm())
+				if kd == "m" {
+					c.Ops = append(c.Ops, fmt.Sprintf("parkey m %s %s %d", nm(), pw(), r.Range(4, 16)))
+				}
 			case 5, 6:
 				c.Ops = append(c.Ops, fmt.Sprintf("export %s %s %s %d", kd, nm(), pw(), r.Intn(2)))
 				reread = true
@@ -261,6 +268,76 @@ func (rn *runner) Step(ctx *core.Ctx, op []string) string {
 			sh[name] = &shadow{pw: pw, d: scalar(k)}
 		}
 		return fmt.Sprintf("ok %s created=%s", scalar(k), core.B(created))
+	case op[0] == "parkey" && len(op) == 5:
+		// k concurrent Key(name, pw) calls on the in-memory keystore: get-or-create must be atomic
+		pw, ok := unhex(op[3])
+		k, e := strconv.Atoi(op[4])
+		if !ok || e != nil || k < 2 || k > 64 || kd != "m" {
+			return "bad-op"
+		}
+		type res struct {
+			d       string
+			created bool
+			err     error
+		}
+		out := make([]res, k)
+		var wg sync.WaitGroup
+		start := make(chan struct{})
+		for i := 0; i < k; i++ {
+			wg.Add(1)
+			go func(i int) {
+				defer wg.Done()
+				<-start
+				key, c, err := svc.Key(name, pw)
+				if err == nil {
+					out[i] = res{scalar(key), c, nil}
+				} else {
+					out[i] = res{err: err}
+				}
+			}(i)
+		}
+		close(start)
+		wg.Wait()
+		s := sh[name]
+		final, fc, ferr := svc.Key(name, pw)
+		nc := 0
+		for i, r := range out {
+			if r.err != nil {
+				if s == nil || s.pw == pw {
+					ctx.Fail("par-key-error", "concurrent Key(%q) #%d failed: %v", name, i, r.err)
+				}
+				continue
+			}
+			if r.created {
+				nc++
+			}
+			if ferr == nil && r.d != scalar(final) {
+				ctx.Fail("par-key-differs", "concurrent caller %d was handed a key that differs from the stored one", i)
+			}
+		}
+		if s != nil && s.pw != pw {
+			if ferr == nil {
+				ctx.Fail("wrong-password-accepted", "Key(%q) accepted a different password", name)
+			}
+			return class(ferr)
+		}
+		if ferr != nil || fc {
+			ctx.Fail("par-key-lost", "after concurrent Key calls Key(%q) gives created=%v err=%v", name, fc, ferr)
+			return "err"
+		}
+		want := 0
+		if s == nil {
+			want = 1
+		}
+		if nc != want {
+			ctx.Fail("par-key-created-count", "%d callers were told that they created the key, want %d", nc, want)
+		}
+		if s != nil && s.d != scalar(final) {
+			ctx.Fail("get-different-key", "Key(%q) returned a different key than stored", name)
+		}
+		ctx.Annotate("k=" + scalar(final))
+		sh[name] = &shadow{pw: pw, d: scalar(final)}
+		return fmt.Sprintf("ok %s created=%d", scalar(final), nc)
 	case op[0] == "exists" && len(op) == 3:
 		e, err := svc.Exists(name)
 		if err != nil {
